@@ -320,6 +320,52 @@ def lookup_api_cases(ctx: Ctx):
     ctx.coverage["oracle"]["lookup_api_cases"] = n
 
 
+# ----------------------------------------------------------------------------- files whose snapshot tests are all xfail (F-96)
+XF_FILES = {
+    # every test of the file that uses snapshots is xfail: the file still takes part in the session
+    "all_xfail": ("import pytest\nfrom inline_snapshot import snapshot, outsource, external\n\n\n@pytest.mark.xfail\ndef test_a():\n    assert outsource('hello') == snapshot({arg})\n", None),
+    "xfail_reason_strict_false": ("import pytest\nfrom inline_snapshot import snapshot, outsource, external\n\n\n@pytest.mark.xfail(reason='flaky')\ndef test_a():\n    assert outsource('hello') == snapshot({arg})\n\n\ndef test_plain():\n    assert 1 == 1\n", None),
+    # control: one more test of the file is not xfail
+    "one_xfail_one_not": ("import pytest\nfrom inline_snapshot import snapshot, outsource, external\n\n\n@pytest.mark.xfail\ndef test_a():\n    assert outsource('hello') == snapshot({arg})\n\n\ndef test_b():\n    assert 2 == snapshot(2)\n", None),
+}
+
+
+def run_xfail_file(kind):
+    """session 1 (create) persists the external of a plain test; the user then marks the test xfail; session 2 runs with trim: the file took part in the
+    session and references the external, so its persisted data has to stay"""
+    d = driver.scratch_dir()
+    try:
+        (d / "pyproject.toml").write_text("[tool.inline-snapshot]\n")
+        plain = "from inline_snapshot import snapshot, outsource, external\n\n\ndef test_a():\n    assert outsource('hello') == snapshot()\n"
+        (d / "test_x.py").write_text(plain)
+        r1 = driver.run_pytest(d, ["--inline-snapshot=create"])
+        after1 = (d / "test_x.py").read_text()
+        m = re.search(r"snapshot\((external\([^)]*\))\)", after1)
+        store = d / ".inline-snapshot" / "external"
+        persisted1 = sorted(p.name for p in store.iterdir() if p.suffix == ".txt") if store.exists() else []
+        if not m or not persisted1:
+            return {"kind": kind, "setup_failed": f"session 1 did not persist an external: rc {r1['rc']}, files {persisted1}, source {after1[-200:]}"}
+        (d / "test_x.py").write_text(XF_FILES[kind][0].replace("{arg}", m.group(1)))
+        r2 = driver.run_pytest(d, ["--inline-snapshot=trim"])
+        persisted2 = sorted(p.name for p in store.iterdir() if p.suffix == ".txt")
+        return {"kind": kind, "rc2": r2["rc"], "persisted1": persisted1, "persisted2": persisted2, "source2": (d / "test_x.py").read_text(), "tail": r2["stdout"][-600:]}
+    finally:
+        shutil.rmtree(d, ignore_errors=True)
+
+
+def xfail_files(ctx: Ctx, only=None):
+    kinds = [k for k in XF_FILES if only in (None, k)]
+    for o in tmap(run_xfail_file, kinds):
+        ctx.count(("xfail-file", o["kind"]), True)
+        if "setup_failed" in o:
+            ctx.report("C13 (xfail files): " + o["setup_failed"], {"kind": "xfail-file", "which": o["kind"]})
+        elif o["persisted2"] != o["persisted1"]:
+            ctx.report(f"C13 oracle (xfail files, {o['kind']}): the session with trim removed the persisted file {sorted(set(o['persisted1']) - set(o['persisted2']))} although the test file that took part in the "
+                       f"session still references it: {o['source2'].splitlines()[-1].strip() if o['kind'] == 'all_xfail' else [l.strip() for l in o['source2'].splitlines() if 'external(' in l]}",
+                       {"kind": "xfail-file", "which": o["kind"], "output": o["tail"]}, tag="F-96")
+    ctx.coverage["oracle"]["xfail_files"] = len(kinds)
+
+
 def run(ctx: Ctx):
     ctx.coverage["rule"] = (
         "histories of 3-8 steps over {add a test with an empty snapshot, edit the data a test outsources (new data or data shared with another test), remove a test, "
@@ -367,10 +413,15 @@ def run(ctx: Ctx):
     # which stored files a trim may remove: the real unused_externals() on generated storage directories and references vs Model/Unused.v
     from .. import unusedcorr
     unusedcorr.check_part(ctx, 300 if not ctx.thorough else 4000, "C13")
+    xfail_files(ctx)
     lookup_api_cases(ctx)
 
 
 def replay(ctx: Ctx, data):
+    if isinstance(data.get("case"), dict) and data["case"].get("kind") == "xfail-file":
+        o = run_xfail_file(data["case"]["which"])
+        print(o)
+        return "setup_failed" not in o and o["persisted2"] == o["persisted1"]
     c = data["case"]
     if c.get("kind") == "unused":
         from .. import unusedcorr
